@@ -324,6 +324,9 @@ def main(tier="quick", seed=0, replay=None):
         "(define (f n) (if (= n 0) '() (cons n (f (- n 1))))) (f 5) (display 'x) (car '())",
         "(define k2 #f) (define n 0) (+ 1 (call/cc (lambda (k) (set! k2 k) 1)) (* 2 3)) (set! n (+ n 1)) (if (< n 3) (k2 n) 'done)",
         "(list (call/cc (lambda (k) 1)) (call/cc (lambda (k) (k 2))) (string-append \"a\" \"b\"))",
+        # quasiquoted vectors stored in globals (fixed defect b2732b9: VPUSH left an unboxed vector in %acc)
+        "(define q `#(1 ,(list 2 3) #(4 ,(list 5)))) (define junk (list 1 2 3 4 5 6)) q (vector-ref q 1)",
+        "(define (mk x) `#(a ,(cons x x) ,(list x))) (define v1 (mk 1)) (define junk (list 9 8 7)) v1 (define v2 (mk 2)) v1 v2",
         RC_CYCLE_WITNESS]]
     progs += gen_programs(rng, nprog)
     cases, groups = [], []          # groups: (index of none case, [indices of scheduled cases], kind)
